@@ -167,6 +167,13 @@ class _Eval:
             self.env[a.vararg.arg] = bindings.get(a.vararg.arg, ("param", "*" + a.vararg.arg))
         if a.kwarg and (a.kwarg.arg in bindings or a.kwarg.arg not in given):
             self.env[a.kwarg.arg] = bindings.get(a.kwarg.arg, ("param", "**" + a.kwarg.arg))
+        # free variables of a nested def that are parameters of an enclosing function (e.g. `self`)
+        par = func.parent
+        while par is not None:
+            pa = par.node.args
+            for p in pa.posonlyargs + pa.args + pa.kwonlyargs:
+                self.env.setdefault(p.arg, ("param", p.arg))
+            par = par.parent
         self.dead = False
 
     # ---------------------------------------------------------------------------------------
